@@ -131,6 +131,40 @@ def unmarshalCQLTime (timeuuid : Bool) (data : List UInt8) (prev : Int × Nat) :
     | some t => (true, t)
     | none => (false, prev)     -- version ≠ 1
 
+/-! ### nullable destinations `**T` of `gocql.Unmarshal` (marshal.go `unmarshalNullable`) and pointer values of `Marshal` -/
+
+/-- what a fresh allocation `reflect.New(T)` of each destination kind holds -/
+def Dst.zero : Dst → Dst
+  | .uuid _ => .uuid zero16
+  | .arr _ => .arr zero16
+  | .bytes _ => .bytes none
+  | .str _ => .str []
+
+/-- `Unmarshal(info, data, &p)` with `p` a `*UUID` / `*[16]byte` / `*[]byte` / `*string` (`kind` names which;
+    its content is irrelevant).  A null column (`data == nil`, here `none`) sets `p = nil`.  Anything else — also
+    an EMPTY non-nil value — allocates a fresh zero value, stores the new pointer in `p` BEFORE decoding, then
+    decodes into it: `p` points to the fresh value also when the decode fails; the value `p` pointed to before
+    is never written.  Result: status and the new `p` (`none` = nil pointer, `some d` = points to `d`). -/
+def unmarshalNullable (data : Option (List UInt8)) (kind : Dst) : Bool × Option Dst :=
+  match data with
+  | none => (true, none)
+  | some d => ((unmarshalCQL d kind.zero).1, some (unmarshalCQL d kind.zero).2)
+
+/-- `time.Time{}` as (Unix seconds, nanoseconds): 0001-01-01T00:00:00Z -/
+def zeroTime : Int × Nat := (-62135596800, 0)
+
+/-- the same for a `**time.Time` destination -/
+def unmarshalNullableTime (timeuuid : Bool) (data : Option (List UInt8)) : Bool × Option (Int × Nat) :=
+  match data with
+  | none => (true, none)
+  | some d => ((unmarshalCQLTime timeuuid d zeroTime).1, some (unmarshalCQLTime timeuuid d zeroTime).2)
+
+/-- `Marshal(info, p)` with `p` a `*UUID`: nil pointer → null (`nil, nil`), else `Marshal` of the value pointed to.
+    Outer `none` = error, inner `none` = null column. -/
+def marshalPtr : Option (List UInt8) → Option (Option (List UInt8))
+  | none => some none
+  | some u => (marshalCQL (.uuid u)).map some
+
 /-! ### sequences of decodes on ONE *UUID destination -/
 
 inductive Step where
